@@ -63,6 +63,9 @@ def run_faulted(runner, model, outdir, k, mode, flush):
 
 def crash_case(runner, r, oc, reqs, pend, max_points, big=False):
     model = genlib.rand_model(r, ("sm", "sm", "sm", "proto", "uml"), big)
+    if model["kind"] in ("sm", "proto") and r.random() < 0.5:
+        model["copy_other"] = True        # kojen's default: the support sources are copied below <out>/allplatforms
+        oc.stat("cases_with_support_copy")
     evolve = r.random() < 0.5
     with scratch() as base:
         real = prepare(runner, r, base, model)
@@ -80,7 +83,7 @@ def crash_case(runner, r, oc, reqs, pend, max_points, big=False):
             oc.corr_failures.append(dict(what="createoutput was not called exactly once", model=model2))
         else:
             reqs.append(dict(cmd="script", outdir=ref, cm=[[k, v] for k, v in cm_out]))
-            pend.append(("script", dict(model=model2, existed=[os.path.join(ref, k) for k in before]), ops))
+            pend.append(("script", dict(model=model2, existed=[os.path.join(ref, k) for k in before]), output_stage_ops(ops, ref)))
         n = len(ops)
         oc.stat("ops_per_run_total", n)
         if n + 1 <= max_points:
@@ -114,6 +117,13 @@ def crash_case(runner, r, oc, reqs, pend, max_points, big=False):
             oc.case(("crash", json.dumps(model2, sort_keys=True, default=str), k, mode, flush), nontrivial=bool(before) and k < n)
         if len(oc.samples) < 3:
             oc.samples.append(dict(model=model2, evolved=evolve, operations=n, crash_points=len(points), first_ops=ops[:5]))
+
+
+def output_stage_ops(ops, outdir):
+    """the operations of createoutput: without the second fault point of an open and without the copy of the support
+    sources (everything below <outdir>/allplatforms)"""
+    sup = os.path.join(outdir, "allplatforms")
+    return [op for op in ops if op[0] != "opened" and not any(isinstance(x, str) and (x == sup or x.startswith(sup + os.sep)) for x in op[1:])]
 
 
 def settle(oc, reqs, pend):
